@@ -271,7 +271,7 @@ def check_obscure_region(ctx, inst):
                 ctx.fail(inst, ctx.site(b, sw[0]), 'no arm for action %s' % name, key='%s|noarm|%s' % (inst, name))
             continue
         tgt, reg = regs[idx]
-        rds = ret_defs(tb, reg)
+        rds = arm_ret_values(b, tb, sw[0], idx)
         # recursion inside the obscure region?
         for bi in reg:
             c = b.callee(bi)
